@@ -200,9 +200,8 @@ func (b *builder) runEdit(c *vrun.Ctx, rc rawCase, samples int) error {
 			c.Violation("encode:"+cs.Base+":unexpected-string-form",
 				fmt.Sprintf("%s address on %s encodes as %q = %v, the specification expects %v", cs.Base, cs.Net, s, a0.describe(), ex.Orig.S), rc.replay())
 		}
-		if o0.d.Accept != ex.OrigDecision.Accept {
-			c.Violation("decode:valid-address:"+divergence(o0.d, ex.OrigDecision),
-				fmt.Sprintf("valid %s address %q on its own network %s: decoder %s, specification %s", cs.Base, s, cs.Net, o0.d, ex.OrigDecision), rc.replay())
+		if o0.want.Accept != ex.OrigDecision.Accept || o0.want.Kind != ex.OrigDecision.Kind {
+			return fmt.Errorf("valid %s address %q on %s: the decision table says %s, the edit case says %s", cs.Base, s, cs.Net, o0.want, ex.OrigDecision)
 		}
 		for j := 0; j < perAddr && done < samples; j++ {
 			done++
